@@ -50,6 +50,13 @@ func pduLine(p interface{}) string { return typeName(p) + " " + toks(p) }
 
 // C01: representable values of every type, several chunkings, some with non-zero status.
 func genC01(r *gen.Rng, tier string, emit func(string)) {
+	// state carried between calls: a Marshal into a destination that fails part-way, then ordinary round trips
+	for i := 0; i < scale(tier, 12, 120); i++ {
+		big := &pdu.BindTransceiver{Header: pdu.Header{Sequence: int32(r.Range(1, 1000))}, SystemID: string(r.NulFree(r.Pick(8, 40, 300))), Password: "p"}
+		emit(fmt.Sprintf("wfail %d %s", r.Pick(0, 1, 4, 16, 17, 30), pduLine(big)))
+		emit("rt w " + pduLine(&pdu.EnquireLink{Header: pdu.Header{Sequence: int32(r.Range(1, 1000))}}))
+		emit("rt w " + pduLine(r.PDU(randType(r), gen.Representable)))
+	}
 	for _, p := range boundaryPDUs() {
 		emit("rt " + pickChunk(r, 64) + " " + pduLine(p))
 	}
@@ -225,6 +232,18 @@ func mutate(r *gen.Rng, f []byte, fixLen bool) []byte {
 
 // C04: arbitrary octets, structured headers with arbitrary bodies, mutated valid frames.
 func genC04(r *gen.Rng, tier string, emit func(string)) {
+	// memory across calls: a run of refused maximum-size frames (unknown command_id, command_length 65536), then valid ones
+	for i := 0; i < scale(tier, 14, 40); i++ {
+		f := make([]byte, 65536)
+		putBE32(f, 65536)
+		putBE32(f[4:], uint32(r.Pick(0x0000BEEF, 0x7FFFFFFF, 0x12)))
+		putBE32(f[12:], uint32(i+1))
+		emit("readpdu w " + canon.Hex(f))
+	}
+	for i := 0; i < 3; i++ {
+		f, _ := validFrame(r, gen.Representable)
+		emit("readpdu w " + canon.Hex(f))
+	}
 	n := scale(tier, 4000, 150000)
 	ts := canon.Types()
 	ids := make([]uint32, len(ts))
